@@ -279,6 +279,20 @@ func (r *rotPayload) Wrapper() wrapping.Wrapper { return r.w }
 func (r *rotPayload) HmacSalt() []byte          { return r.salt }
 func (r *rotPayload) HmacInfo() []byte          { return r.info }
 
+// badTagMap is a Taggable whose single tag uses the pointer in badTagPointer.
+type badTagMap map[string]interface{}
+
+var badTagPointer string
+
+func (m badTagMap) Tags() ([]encrypt.PointerTag, error) {
+	return []encrypt.PointerTag{{Pointer: badTagPointer, Classification: encrypt.SensitiveClassification, Filter: encrypt.HmacSha256Operation}}, nil
+}
+
+// plainTagMap is a Taggable map that tags nothing.
+type plainTagMap map[string]interface{}
+
+func (m plainTagMap) Tags() ([]encrypt.PointerTag, error) { return nil, nil }
+
 // rotPayloadWithID is a rotation payload that also satisfies EventWrapperInfo (it has an EventId):
 // it is still a key-rotation payload and must be consumed.
 type rotPayloadWithID struct {
@@ -442,6 +456,62 @@ func Specials(prop, cls string) *hk.Result {
 			}
 		}()
 		res.Outcome("special defined-types")
+	}
+	// bad tag pointers fail closed: a Taggable whose tag cannot be evaluated (not a pointer at all; a pointer
+	// that walks through a scalar) is an error, and nothing is forwarded
+	if cls == "leak" {
+		for _, ptr := range []string{"user/email", "/id/email"} {
+			count()
+			tm := badTagMap{"id": "id-12", "user": map[string]interface{}{"email": "CANARYbadptr"}}
+			badTagPointer = ptr
+			out, err := (&encrypt.Filter{Wrapper: base, HmacSalt: []byte("s"), HmacInfo: []byte("i")}).Process(ctx, &el.Event{Type: "t", Payload: tm})
+			if err == nil || out != nil {
+				fail("bad tag pointer "+ptr, "a tag pointer that cannot be evaluated must make Process fail and forward nothing; got (forwarded=%v, err=%v)", out != nil, err)
+			}
+			res.Outcome("special bad-tag-pointer")
+		}
+	}
+	// unclassified values that merely look like the filter's own output are still unclassified plaintext
+	if cls == "leak" {
+		type look struct {
+			M map[string]interface{}
+			S map[string]string
+		}
+		for _, prefix := range []string{"encrypted:", "hmac-sha256:", "[REDACTED]"} {
+			count()
+			in := &look{M: map[string]interface{}{"a": prefix + "CANARYlookA", "b": []byte(prefix + "CANARYlookB")}, S: map[string]string{"c": prefix + "CANARYlookC"}}
+			tm := plainTagMap{"d": prefix + "CANARYlookD", "e": map[string]interface{}{"f": prefix + "CANARYlookF"}}
+			for name, p := range map[string]interface{}{"struct with untagged maps": in, "Taggable map without tags": tm, "untagged map": map[string]interface{}{"g": prefix + "CANARYlookG"}} {
+				out, err := mk().Process(ctx, &el.Event{Type: "t", Payload: p})
+				if err == nil && out != nil {
+					var sb strings.Builder
+					walkStrings(reflect.ValueOf(out.Payload), &sb, 0)
+					if strings.Contains(sb.String(), "CANARYlook") {
+						fail("filter-output look-alike "+prefix+" in "+name, "an unclassified map value that merely starts with %q was forwarded in clear: %s", prefix, sb.String())
+					}
+				}
+			}
+			res.Outcome("special look-alike")
+		}
+	}
+	// with every operation overridden to none the event is forwarded unchanged - whatever its payload is,
+	// a payload that has the key-rotation methods included
+	if cls == "copy" {
+		allNone := map[encrypt.DataClassification]encrypt.FilterOperation{encrypt.PublicClassification: encrypt.NoOperation, encrypt.SensitiveClassification: encrypt.NoOperation, encrypt.SecretClassification: encrypt.NoOperation}
+		for _, withW := range []bool{false, true} {
+			count()
+			rp := &rotPayload{salt: []byte("s2")}
+			if withW {
+				rp.w = NewWrapper(9)
+			}
+			f := &encrypt.Filter{Wrapper: base, FilterOperationOverrides: allNone}
+			e := &el.Event{Type: "t", Payload: rp}
+			out, err := f.Process(ctx, e)
+			if err != nil || out != e {
+				fail(fmt.Sprintf("all operations none, payload with rotation methods (wrapper=%v)", withW), "with all operations overridden to none the event must be forwarded unchanged (the same event); got (%v, %v)", out, err)
+			}
+			res.Outcome("special all-none rotation payload")
+		}
 	}
 	// rotation payloads are consumed
 	if cls == "leak" {
